@@ -33,6 +33,9 @@ var rec = hx.NewRecorder("C16",
 	"a call that returned an error other than a transaction conflict may or may not have had an effect",
 	"MaxTxnRetries is set above the number of commits of a case, so an incoming merge dropped with a conflict cannot be a legitimately exhausted retry loop",
 	"a merge that neither completes nor logs a failure within 75 s ends the run inconclusive, not as a violation",
+	"closing the nodes is not part of the schedule: the harness waits (bounded) for replicator pushes and for the replicator peer's merges before closing, and a race report with a node's Close on either side is not judged",
+	"while the listed races on the shared transaction's own state (store accessed without the wrapper mutex, callback lists) are unrepaired, accounting and structure verdicts of a case that hit them are not judged (label verdict-not-judged-after-known-shared-txn-race); half of the cases avoid shared transactions for that reason",
+	"in P2P cases no merges are published by the harness (the replicator peer logs its own merge failures through the same process-wide logger)",
 )
 
 func TestMain(m *testing.M) { hx.Main(m) }
@@ -110,6 +113,10 @@ func runCase(c Case) (fails []*hx.Failure, labels []string, history string) {
 	reports := readRaceReports(racePrefix)
 	seen := map[string]bool{}
 	for _, r := range reports {
+		if duringClose(r.Stk[0]) || duringClose(r.Stk[1]) {
+			labels = append(labels, "race-with-node-shutdown-not-judged")
+			continue
+		}
 		sig := raceSignature(r, c.SharedTxn)
 		if seen[sig] {
 			continue
@@ -160,7 +167,8 @@ func verdict(t hx.TB, c Case, fails []*hx.Failure) {
 		}
 	}
 	for _, f := range fails {
-		if corrupting && !strings.HasPrefix(f.Sig, "C16/race/") && !strings.HasPrefix(f.Sig, "C16/panic/") && !strings.HasPrefix(f.Sig, "C16/fatal/") {
+		if corrupting && (f.Sig == sigSharedTxnOpenIterator ||
+			(!strings.HasPrefix(f.Sig, "C16/race/") && !strings.HasPrefix(f.Sig, "C16/panic/") && !strings.HasPrefix(f.Sig, "C16/fatal/"))) {
 			rec.Label("verdict-not-judged-after-known-shared-txn-race")
 			continue
 		}
@@ -328,6 +336,7 @@ func captureLogs() {
 						if tr.failed(mergeKey(l.Event.DocID, l.Event.Cid["/"]), e, tick) {
 							continue
 						}
+						foreignMergeFailures.Add(1)
 					}
 				}
 			}
